@@ -156,7 +156,7 @@ func c10run(c *C, id string, cl c10class, flags []string, pre c10pre, plan map[i
 		}
 	}
 	c.Count("runs")
-	c.Count("evaluations_override")
+	c.Count("evaluations_extra")
 	if r.Panic != "" {
 		c.Violation("panic:"+cl.id, "tool panicked ("+id+"):\n"+r.Panic, fm, extra)
 		return points, 2
